@@ -96,6 +96,11 @@ CHECKS = {
         text="Configuration-space exploration: the same programs that compile in a neutral scope (C01) must compile in each hostile scope; user-written tokens are given explicit imports so any unresolved or mis-resolved name is the expansion's.",
         note="Trusted: rustc name resolution. Behavioural identity follows from the expansion text being scope-independent; only compilation is observed.",
         design_ref="DESIGN.md §3 C15", engine="compile"),
+    "C20": dict(
+        technique="exhaustive enumeration of the feature lattice up to size 2 and its top: 24 singles (quick) + 276 pairs + full (thorough), each with and without std (48 / 602 configurations); per configuration cargo check of derive_more-impl and derive_more from the working tree, a probe crate whose unresolved imports must be exactly the 157 items (50 derives x 3 paths + 7 helper types) of the disabled features, and (thorough: singles and full) the repository's own test program per feature",
+        text="Configuration-space exploration: every configuration in the stated part of the lattice is built with the real toolchain; exposure is decided per item by rustc's name resolution.",
+        note="Trusted: cargo/rustc; the helper-type -> feature table transcribed from the docs. Triples and larger proper subsets are not explored (pairs exercise every pairwise combination of the cfg(any(feature..)) guards).",
+        design_ref="DESIGN.md §3 C20", engine="cargo"),
 }
 
 PENDING = ["C01", "C02", "C03", "C04", "C05", "C06", "C07", "C08", "C09", "C10", "C11", "C13", "C14", "C15", "C16",
